@@ -34,6 +34,7 @@ type c15Cfg struct {
 	Ballast  int   `json:"ballast_entries"` // never-expiring entries in cache 0 (stretches every sweep)
 	Gap      int   `json:"wave_gap_us"`    // pause before each further wave, microseconds
 	Swap     int   `json:"callback_swap"`  // 0 none; 1 SetEvictedCallback(another) after construction; 2 SetEvictedCallback(nil)
+	Disturb  bool  `json:"slow_callback_once"` // the first evicted callback takes max(40 intervals, 300ms): one sweep overruns; the pace afterwards is measured
 }
 
 var c15Gen = rapid.Custom(func(t *rapid.T) c15Cfg {
@@ -49,15 +50,20 @@ var c15Gen = rapid.Custom(func(t *rapid.T) c15Cfg {
 	c.Ballast = []int{0, 50000, 150000}[uniform(t, 3, "ballast")]
 	c.Gap = []int{0, 0, 0, 300, 2500, 15000}[uniform(t, 6, "gap")]
 	c.Swap = []int{0, 0, 1, 2}[uniform(t, 4, "swap")]
+	c.Disturb = uniform(t, 3, "disturb") == 0
 	return c
 })
 
 type ledger struct {
-	mu sync.Mutex
-	m  map[string]int
+	mu   sync.Mutex
+	m    map[string]int
+	slow int64 // nanoseconds the next callback takes (once)
 }
 
 func (l *ledger) add(k string) {
+	if d := atomic.SwapInt64(&l.slow, 0); d > 0 {
+		time.Sleep(time.Duration(d))
+	}
 	l.mu.Lock()
 	l.m[k]++
 	l.mu.Unlock()
@@ -252,6 +258,13 @@ func oneC15(cfg c15Cfg) (viol string, miss string) {
 		}
 	}()
 	expired := map[string]bool{}
+	if cfg.Disturb && effective != nil && cfg.Interval > 0 {
+		slow := 40 * time.Duration(cfg.Interval) * time.Millisecond
+		if slow < 300*time.Millisecond {
+			slow = 300 * time.Millisecond
+		}
+		atomic.StoreInt64(&effective.slow, int64(slow))
+	}
 	for i, c := range caches[:cfg.Caches] {
 		for j := 0; j < cfg.Expiring; j++ {
 			k := fmt.Sprintf("c%d/e%d", i, j)
@@ -335,6 +348,45 @@ func oneC15(cfg c15Cfg) (viol string, miss string) {
 		}
 		stats.Max("max_autoclean_latency_ms", time.Since(t0).Milliseconds())
 		if msg := checkLedgers(cfg, led, led2, effective, expired, "the janitor removed the expired entries"); msg != "" {
+			return msg, ""
+		}
+		// (i') pace after the history above (which may include one sweep that overran because of a slow callback):
+		// an entry that expires now must still go within a number of intervals that does not depend on that history.
+		// Each probe is stored right after the previous one was seen removed, i.e. just after a sweep.
+		pace := 25 * time.Duration(cfg.Interval) * time.Millisecond
+		if pace < 250*time.Millisecond {
+			pace = 250 * time.Millisecond
+		}
+		// disarm a slow callback that never fired (no entry expired so far): it must not delay the janitor NOW
+		disturbed := effective != nil && cfg.Disturb && atomic.SwapInt64(&effective.slow, 0) == 0
+		for r := 1; r <= 3; r++ {
+			for i, c := range caches[:cfg.Caches] {
+				k := fmt.Sprintf("c%d/p%d", i, r)
+				c.Set(k, 300*time.Microsecond)
+				expired[k] = true
+			}
+			tp := time.Now()
+			for {
+				done := true
+				for i, c := range caches[:cfg.Caches] {
+					if c.Count() != want(i) {
+						done = false
+					}
+				}
+				if done {
+					break
+				}
+				if time.Since(tp) > pace {
+					return "", fmt.Sprintf("interval %dms: after the earlier waves (one sweep overran because of a slow callback: %v) an entry with TTL 300us was still physically present %v (= %d intervals) after it was stored, without user calls", cfg.Interval, disturbed, time.Since(tp).Round(time.Millisecond), int64(time.Since(tp)/time.Millisecond)/cfg.Interval)
+				}
+				time.Sleep(200 * time.Microsecond)
+			}
+			stats.Max("max_pace_latency_ms", time.Since(tp).Milliseconds())
+		}
+		if disturbed {
+			stats.Inc("configs_with_overrun_sweep")
+		}
+		if msg := checkLedgers(cfg, led, led2, effective, expired, "the janitor removed the probe entries"); msg != "" {
 			return msg, ""
 		}
 	} else {
